@@ -866,6 +866,8 @@ def _gen_predeclared(ctx):
             for rot in range(len(labs)):
                 for rev in (False, True):
                     yield {"type": t, "labels": labs, "rot": rot, "rev": rev, "extra": ['zz']}
+                    # declared numbers with gaps (as in the library's own test: {0: 'a', 2: 'b'})
+                    yield {"type": t, "labels": labs, "rot": rot, "rev": rev, "extra": ['zz', 'yy'], "stride": 2}
         for _ in range(ctx.pick(40, 800)):
             labs = rng.sample(LABELS, rng.randint(1, 4))
             yield {"type": t, "labels": labs, "rot": rng.randint(0, 3), "rev": rng.random() < 0.5,
@@ -881,7 +883,7 @@ def check_predeclared(case):
     M = cls_of(case["type"])()
     labs = list(case["labels"])
     n = len(labs)
-    decl = {l: (i + case["rot"]) % n for i, l in enumerate(labs)}
+    decl = {l: ((i + case["rot"]) % n) * case.get("stride", 1) for i, l in enumerate(labs)}
     if case["rev"]:
         M.set_reverse_mapping({v: l for l, v in decl.items()})
     else:
@@ -893,8 +895,10 @@ def check_predeclared(case):
     mp, rm, vs = M.mapping, M.reverse_mapping, set(M.variables)
     if set(mp) != vs:
         return Fail("mapping %r does not enumerate exactly the variables %r" % (mp, sorted(vs, key=repr)), key="predeclared-labels")
-    if sorted(mp.values()) != list(range(len(vs))):
+    if case.get("stride", 1) == 1 and sorted(mp.values()) != list(range(len(vs))):
         return Fail("mapping %r is not a bijection onto 0..%d" % (mp, len(vs) - 1), key="predeclared-not-bijection")
+    if len(set(mp.values())) != len(mp):
+        return Fail("mapping %r gives two labels the same number" % (mp,), key="predeclared-not-injective")
     if {v: k for k, v in mp.items()} != rm:
         return Fail("reverse_mapping %r is not the inverse of mapping %r" % (rm, mp), key="predeclared-inverse")
     if any(mp[l] != decl[l] for l in labs):
